@@ -97,6 +97,7 @@ type World struct {
 	Plans   []*workflow.Plan // the objects handed to Submit (the engine does not use them after Create... it does not; Start re-reads)
 
 	apiGoids   map[uint64]string
+	driverGoid uint64             // the driver (bubble root) goroutine never parks: its storage calls are setup/boot work
 	apiCur     map[string]APICall // the call each API thread is currently inside
 	LastThread string
 
@@ -162,7 +163,7 @@ func (w *World) signal() {
 // It returns false when it was woken by ctx.
 func (w *World) park(g *Gate, ctx context.Context) bool {
 	w.mu.Lock()
-	if w.passthrough {
+	if w.passthrough || (w.driverGoid != 0 && goid() == w.driverGoid) {
 		w.mu.Unlock()
 		return true
 	}
